@@ -176,6 +176,45 @@ fn run_f40(tracer: &Tracer) {
     tracer.emit(json!({"ev":"end","listing":w.dir.listing(),"locks":w.dir.lock_files(),"managed":w.managed()}));
 }
 
+/// a commit that wrote a delete file fails while replacing meta.json; the writer is rolled back and
+/// the SAME transaction is issued again: it draws the same opstamps, so the same delete-file name
+fn run_reuse(tracer: &Tracer, how: &str) {
+    tracer.reset_canon();
+    let mut cfg = Cfg::default();
+    cfg.flush_after = 1;
+    tracer.emit(json!({"ev":"reset","cfg":cfg.to_json(),"tag":{"reuse":how}}));
+    let mut w = World::new_quiet(tracer, &cfg, false);
+    install_sink(tracer, w.regs.clone(), None);
+    w.exec(&json!({"op":"new_writer"}));
+    w.exec(&json!({"op":"add","id":1,"t":"a","v":0}));
+    w.exec(&json!({"op":"add","id":2,"t":"b","v":0}));
+    w.exec(&json!({"op":"commit"}));
+    // a fresh writer: its stamper starts at the committed opstamp, as the one after the failure will
+    w.exec(&json!({"op":"drop_writer"}));
+    w.exec(&json!({"op":"new_writer"}));
+    w.exec(&json!({"op":"del","pred":{"k":"term","t":"a"}}));
+    let now = w.dir.opcount();
+    w.dir.set_fault(FaultPlan { k: now + 1, ops: vec!["atomic_write".into()], only_path: "meta.json".into(), skip_locks: true, ..Default::default() });
+    w.exec(&json!({"op":"commit"}));
+    w.dir.set_fault(FaultPlan::default());
+    tracer.emit(json!({"ev":"heal","fired":1}));
+    if how == "rollback" {
+        w.exec(&json!({"op":"rollback"}));
+    } else {
+        w.exec(&json!({"op":"drop_writer"}));
+        w.exec(&json!({"op":"new_writer"}));
+    }
+    w.exec(&json!({"op":"del","pred":{"k":"term","t":"a"}}));
+    w.exec(&json!({"op":"commit"}));
+    w.exec(&json!({"op":"reload"}));
+    w.exec(&json!({"op":"add","id":3,"t":"c","v":0}));
+    w.exec(&json!({"op":"commit"}));
+    w.exec(&json!({"op":"wait_merges"}));
+    w.exec(&json!({"op":"observe"}));
+    tantivy::verif::set_sink(None);
+    tracer.emit(json!({"ev":"end","listing":w.dir.listing(),"locks":w.dir.lock_files(),"managed":w.managed()}));
+}
+
 fn main() {
     let a = Args::parse();
     let tracer = Tracer::to_file(&a.get("out", "/dev/stdout"));
@@ -185,6 +224,12 @@ fn main() {
     let mut rng = StdRng::seed_from_u64(seed);
     let wl = workloads();
     std::panic::set_hook(Box::new(|_| {}));
+    if a.pos.get(0).map(|s| s.as_str()) == Some("reuse") {
+        run_reuse(&tracer, "rollback");
+        run_reuse(&tracer, "reopen");
+        tracer.flush();
+        return;
+    }
     if a.pos.get(0).map(|s| s.as_str()) == Some("f40") {
         run_f40(&tracer);
         tracer.flush();
